@@ -119,6 +119,11 @@ def run(chk):
         data = open(path, "rb").read()
         for (name, i, b) in native_faults(data, rng, thorough):
             extra.append({"id": f"{fn}:{name}@{i}", "bytes": list(b), "want_log": False, "_he": py_has_endlib(b)})
+    # well-formed streams of the independent encoder in EVERY value profile (dates, strings, reals, flags), unfaulted: whatever
+    # the reader returns for them must be stable under write and re-read (the third clause of the property)
+    gen = G.generate(chk, thorough, want_unsupported=False, simulate=False)
+    for c in gen[::(2 if thorough else 4)]:
+        extra.append({"id": f"valid{c['id']}", "bytes": c["bytes"], "want_log": False, "_he": True})
     nn = 100000 if thorough else 4000
     for k in range(nn):
         extra.append({"id": f"noise{k}", "noise_seed": chk.seed * 1000003 + k, "len": rng.choice([0, 1, 3, 4, 5, 8, 17, 40, 100, 300]), "want_log": k % 20 == 0, "_he": None})
